@@ -178,7 +178,15 @@ def _key_derivation(ctx, rid, f, g, lp, kv, n):
         gs = guards_of(g, m)
         none_guard = any(cmp_fact(t, pol) == ("is", kv, "None", True) for (t, pol) in gs)
         member_guard = any((cmp_fact(t, pol) or ("",))[0] == "in" and cmp_fact(t, pol)[2] == "rename_headers" and cmp_fact(t, pol)[3] is False for (t, pol) in gs)
-        if not (none_guard or member_guard):
+        # ... or the prefix is applied in the `except KeyError` handler of the try that looks the name up in rename_headers
+        handler_guard = False
+        for tr in ast.walk(f.node):
+            if isinstance(tr, ast.Try) and not tr.orelse and len(tr.body) == 1 and isinstance(tr.body[0], ast.Assign) and isinstance(tr.body[0].value, ast.Subscript) \
+                    and dotted(tr.body[0].value.value) == "rename_headers" and dotted(tr.body[0].targets[0]) == kv:
+                for h in tr.handlers:
+                    if h.type is not None and norm(h.type) == "KeyError" and any(x is m.ast for x in ast.walk(h)):
+                        handler_guard = True
+        if not (none_guard or member_guard or handler_guard):
             ctx.r.violation(rid, key_of(f, None, "prefix-guard"), "the HTTP_ prefix is not applied exactly when there is no rename target", f.loc(m.ast))
 
 
@@ -359,14 +367,19 @@ def rule_r9(ctx):
     p = ctx.p
     f = p.func("task.WSGITask.get_environment")
     g = cfg_of(f)
+    def _rl(e):
+        """text of e with single-assignment locals resolved (prefix_len -> len(url_prefix) -> ...), spaces removed"""
+        return norm(resolve_locals(f, e)).replace(" ", "").replace('"', "'") if e is not None else None
+    LENP = _rl(ast.parse("len(url_prefix)", mode="eval").body)
+    PSL = _rl(ast.parse("url_prefix + '/'", mode="eval").body)
     cuts = [n for n in g.nodes if n.kind == "stmt" and isinstance(n.ast, ast.Assign) and dotted(n.ast.targets[0]) == "path" and isinstance(n.ast.value, ast.Subscript)
-            and dotted(n.ast.value.value) == "path" and isinstance(n.ast.value.slice, ast.Slice) and "len(url_prefix)" in norm(n.ast.value.slice)]
+            and dotted(n.ast.value.value) == "path" and isinstance(n.ast.value.slice, ast.Slice) and LENP in (_rl(n.ast.value.slice.lower) or "")]
     if not cuts:
         ctx.r.violation(rid, key_of(f, None, "no-prefix-cut"), "get_environment no longer removes url_prefix from the path", f.loc())
         return
     for n in cuts:
         sl = n.ast.value.slice
-        if not (sl.upper is None and norm(sl.lower) == "len(url_prefix)"):
+        if not (sl.upper is None and _rl(sl.lower) == LENP):
             ctx.r.violation(rid, key_of(f, None, "prefix-cut-slice"), "the prefix is removed by %s (expected path[len(url_prefix):])" % norm(n.ast.value), f.loc(n.ast))
             continue
         ok = False
@@ -379,6 +392,12 @@ def rule_r9(ctx):
                 elif isinstance(a, ast.Name):
                     d = [m for m in walk_own(f.node) if isinstance(m, ast.Assign) and dotted(m.targets[0]) == a.id]
                     if d and norm(d[0].value).replace(" ", "") == "url_prefix+'/'":
+                        ok = True
+            # the same test as a slice comparison: path[:len(url_prefix) + 1] == url_prefix + '/'
+            if pol and isinstance(t, ast.Compare) and len(t.ops) == 1 and isinstance(t.ops[0], ast.Eq):
+                for a0, b0 in ((t.left, t.comparators[0]), (t.comparators[0], t.left)):
+                    if isinstance(a0, ast.Subscript) and dotted(a0.value) == "path" and isinstance(a0.slice, ast.Slice) and a0.slice.lower is None and a0.slice.step is None \
+                            and (_rl(a0.slice.upper) or "") == LENP + "+1" and _rl(b0) == PSL:
                         ok = True
         if ok:
             ctx.r.ok(rid, "prefix removed only when the path starts with url_prefix + '/'", f.loc(n.ast))
